@@ -48,6 +48,8 @@ fn eval_inner(req: &str) -> Case {
         "rcmp3" => crate::pure::eval_rcmp3(req, f[1], f[2], f[3]),
         "term2" => crate::pure::eval_term2(req, f[1], f[2]),
         "bset2" => crate::vset::eval_bset2(req, f[1].parse().unwrap(), f[2].parse().unwrap()),
+        "dag" => crate::dag::eval_dag(req, f[1], f[2].parse().unwrap()),
+        "scale" => crate::scale::eval_scale(req, f[1], f[2].parse().unwrap()),
         "svx" => crate::containers::eval_svx(req, f[1]),
         "smx" => crate::containers::eval_smx(req, &req["smx|".len()..]),
         "sv1" => crate::misc::eval_sv1(req, f[1].parse().unwrap(), f[2].parse().unwrap(), f[3].parse().unwrap()),
